@@ -6,6 +6,7 @@ package sasl
 // another connection's reply.
 
 import (
+	"encoding/json"
 	"errors"
 	"fmt"
 	"net"
@@ -84,13 +85,21 @@ type mcWorld struct {
 var mw *mcWorld
 
 func TestMC(t *testing.T) {
-	ev := verifev.New("C05", "mc-"+os.Getenv("VERIF_MC_SCENARIO"))
+	prop := os.Getenv("VERIF_MC_PROP")
+	if prop == "" {
+		prop = "C05"
+	}
+	partName := os.Getenv("VERIF_MC_PART")
+	if partName == "" {
+		partName = "mc"
+	}
+	ev := verifev.New(prop, partName+"-"+os.Getenv("VERIF_MC_SCENARIO"))
 	type scen struct {
 		name  string
 		n     int
 		frags int
 	}
-	scs := []scen{{"2-connections", 2, 2}, {"3-connections", 3, 1}, {"3-connections-fragmented", 3, 2}, {"3-connections-one-truncated", 3, 3}}
+	scs := []scen{{"2-connections", 2, 2}, {"3-connections", 3, 1}, {"3-connections-fragmented", 3, 2}, {"3-connections-one-truncated", 3, 3}, {"2-connections-bytewise", 2, 4}}
 	if ev.Thorough() {
 		scs = append(scs, scen{"4-connections", 4, 1})
 	}
@@ -101,8 +110,35 @@ func TestMC(t *testing.T) {
 		}
 		return
 	}
+	var rpl struct {
+		Replay struct {
+			Scenario string `json:"scenario"`
+			Order    int    `json:"order"`
+			Choices  []int  `json:"choices"`
+		} `json:"replay"`
+	}
+	rp := os.Getenv("VERIF_REPLAY")
 	idx, err := strconv.Atoi(sel)
-	if err != nil || idx < 0 || idx >= len(scs) {
+	if rp != "" {
+		b, err := os.ReadFile(rp)
+		if err == nil {
+			err = json.Unmarshal(b, &rpl)
+		}
+		if err != nil {
+			fmt.Println("cannot read replay file:", err)
+			os.Exit(2)
+		}
+		idx = -1
+		for i, s := range scs {
+			if s.name == rpl.Replay.Scenario {
+				idx = i
+			}
+		}
+		if idx < 0 {
+			fmt.Println("scenario of replay file not found:", rpl.Replay.Scenario)
+			os.Exit(2)
+		}
+	} else if err != nil || idx < 0 || idx >= len(scs) {
 		fmt.Println("bad scenario")
 		os.Exit(2)
 	}
@@ -117,13 +153,22 @@ func TestMC(t *testing.T) {
 			mw = &mcWorld{calls: map[string]int{}}
 			ln := &mcListener{}
 			for i := 0; i < sc.n; i++ {
-				req := &Request{fmt.Sprintf("user%d", i), fmt.Sprintf("pw%d", i), fmt.Sprintf("svc%d", i), ""}
+				req := &Request{fmt.Sprintf("%duser", i), fmt.Sprintf("%dpw", i), fmt.Sprintf("%dsvc", i), ""}
 				data, _ := req.Marshal()
 				c := &mcConn{id: i}
+				// every field starts with the digit in which the requests differ and the first fragment
+				// ends right after the digit of the password (00 05 <i>user 00 03 <i> | pw ...): the
+				// handler is parked with an unconsumed residue that differs between connections, so
+				// state shared between connection handlers cannot hide
+				cut := 10
 				if sc.frags == 3 && i == 1 {
-					c.in = [][]byte{data[:5]} // connection 1 abandons its request half-way
+					c.in = [][]byte{data[:cut]} // connection 1 abandons its request half-way
+				} else if sc.frags == 4 {
+					for _, b := range data {
+						c.in = append(c.in, []byte{b})
+					}
 				} else if sc.frags >= 2 {
-					c.in = [][]byte{data[:5], data[5:]}
+					c.in = [][]byte{data[:cut], data[cut:]}
 				} else {
 					c.in = [][]byte{data}
 				}
@@ -133,7 +178,7 @@ func TestMC(t *testing.T) {
 			s := &Server{ln: ln, cb: func(login, pw, svc, realm string) (bool, string, error) {
 				mc.Yield("callback." + login)
 				mw.calls[login+"/"+pw+"/"+svc+"/"+realm]++
-				i, _ := strconv.Atoi(strings.TrimPrefix(login, "user"))
+				i, _ := strconv.Atoi(strings.TrimSuffix(login, "user"))
 				if i%3 == 2 {
 					return true, "", errors.New("backend down for " + login)
 				}
@@ -178,14 +223,14 @@ func TestMC(t *testing.T) {
 					continue
 				}
 				wantOK := c.id%2 == 0 && c.id%3 != 2
-				me := fmt.Sprintf("user%d", c.id)
+				me := fmt.Sprintf("%duser", c.id)
 				if r.Result != wantOK || !strings.Contains(r.Message, me) {
 					v = append(v, mc.Viol{Key: "connection-received-foreign-or-wrong-reply", Desc: fmt.Sprintf("connection %d (login %s, expected verdict %v) received verdict %v message %q", c.id, me, wantOK, r.Result, r.Message)})
 				}
 				if c.closed != 1 || c.afterCl != 0 {
 					v = append(v, mc.Viol{Key: "connection-close-discipline", Desc: fmt.Sprintf("connection %d closed %d times, %d writes after close", c.id, c.closed, c.afterCl)})
 				}
-				key := fmt.Sprintf("user%d/pw%d/svc%d/", c.id, c.id, c.id)
+				key := fmt.Sprintf("%duser/%dpw/%dsvc/", c.id, c.id, c.id)
 				if mw.calls[key] != 1 {
 					v = append(v, mc.Viol{Key: "callback-count", Desc: fmt.Sprintf("callback called %d times with the fields of connection %d (all calls: %v)", mw.calls[key], c.id, mw.calls)})
 				}
@@ -209,6 +254,19 @@ func TestMC(t *testing.T) {
 		},
 		Cleanup: func() { mw = nil },
 	}
+	if rp != "" {
+		v, trace, out := mc.Replay(h, mc.Options{Order: rpl.Replay.Order}, rpl.Replay.Choices)
+		fmt.Println("REPLAY outcome:", out)
+		for _, l := range trace {
+			fmt.Println("  ", l)
+		}
+		for _, x := range v {
+			fmt.Printf("V|%s|%s|%s\n", x.Key, rp, strings.ReplaceAll(x.Desc, "\n", " "))
+		}
+		ev.Add("evaluations", 1)
+		ev.Finish()
+		return
+	}
 	modes := []mc.Options{{Bound: -1, Prune: true, MaxSteps: 3000}}
 	b := 2
 	if ev.Thorough() {
@@ -221,7 +279,7 @@ func TestMC(t *testing.T) {
 		o.Deadline = deadline
 		name := fmt.Sprintf("bound=%d prune=%v order=%d", o.Bound, o.Prune, o.Order)
 		o.Report = func(v mc.Viol, choices []int, trace []string) {
-			ev.Violation(v.Key, fmt.Sprintf("[scenario %s, %s] %s", sc.name, name, v.Desc), map[string]any{"scenario": sc.name, "choices": choices, "trace": trace})
+			ev.Violation(v.Key, fmt.Sprintf("[scenario %s, %s] %s", sc.name, name, v.Desc), map[string]any{"scenario": sc.name, "order": o.Order, "choices": choices, "trace": trace})
 		}
 		st := mc.Explore(h, o)
 		ev.Add("evaluations", st.Executions)
@@ -234,7 +292,7 @@ func TestMC(t *testing.T) {
 		if !st.Complete {
 			ev.NotExhaustive(fmt.Sprintf("%s %s stopped early after %d executions", sc.name, name, st.Executions))
 		}
-		fmt.Printf("MC C05 %s %s: executions=%d states=%d terminal=%d viol=%d\n", sc.name, name, st.Executions, st.States, len(st.Terminal), st.Violations)
+		fmt.Printf("MC sasl %s %s: executions=%d states=%d terminal=%d viol=%d\n", sc.name, name, st.Executions, st.States, len(st.Terminal), st.Violations)
 	}
 	ev.Sample(map[string]any{"scenario": sc.name, "connections": sc.n, "fragments_per_request": sc.frags})
 	ev.Rule = "every schedule of the rewritten accept loop + per-connection handlers for the scenario (full reachability with state-key pruning, plus deviation-bounded DFS under two canonical orders); scheduling points: accept, every read, write, close and callback; distinct = distinct terminal observations (bytes received per connection)"
